@@ -568,6 +568,8 @@ inline long long clip(long long x) {
 
 struct Shared {
   std::atomic<long long> go{-1}; // round the workers may run
+  std::atomic<int> arrived{0}; // workers that have seen the round start (rendezvous)
+  std::atomic<unsigned long long> startAt{0}; // tick at which the workers start (0: not yet known)
   std::atomic<int> done{0}; // workers that finished the round
   std::atomic<int> growersDone{0};
   std::atomic<int> quit{0};
@@ -590,6 +592,17 @@ long long nowNs() {
   clock_gettime(CLOCK_MONOTONIC, &ts);
   return (long long)ts.tv_sec * 1000000000LL + ts.tv_nsec;
 }
+#if defined(__x86_64__) || defined(__i386__)
+inline unsigned long long ticks() {
+  return __builtin_ia32_rdtsc();
+}
+constexpr unsigned long long kStartDelayTicks = 6000;
+#else
+inline unsigned long long ticks() {
+  return (unsigned long long)nowNs();
+}
+constexpr unsigned long long kStartDelayTicks = 2000;
+#endif
 inline void relax(unsigned& n) {
   if ((++n & 0xffff) == 0)
     sched_yield();
@@ -817,6 +830,16 @@ void workerMain(int w) {
       continue;
     }
     seen = r;
+    // rendezvous: the last worker to arrive picks a start tick a little in the future; every worker
+    // spins on the clock until then, so that all programs start within a few nanoseconds of each other
+    // (each worker then adds its own random spin offset)
+    if (g_sh.arrived.fetch_add(1, std::memory_order_acq_rel) + 1 == kWorkers)
+      g_sh.startAt.store(ticks() + kStartDelayTicks, std::memory_order_release);
+    unsigned long long at;
+    while ((at = g_sh.startAt.load(std::memory_order_acquire)) == 0)
+      relax(spins);
+    while (ticks() < at) {
+    }
     if (w < g_sh.growers) {
       g_sh.growerFn(g_sh.vec, g_sh.w[w]);
       g_sh.growersDone.fetch_add(1, std::memory_order_acq_rel);
@@ -868,23 +891,40 @@ void randomRound(uint64_t& rng, Config& c, int& growers, bool& reader, Work* w) 
   c.n0 = rnd(3) == 0 ? 0 : rnd(c.f == 4 ? kMaxN0 + 1 : 7);
   growers = 2 + rnd(3);
   long long worst = c.n0; // upper bound of the final size
-  const long long limit = 96;
+  const long long limit = 64;
+  // "ladder" rounds: every grower climbs the same targets n0 + 1, n0 + 2, ... with grow_to_at_least
+  // (and a few single pushes), so that size_ crosses a target while another thread is inside
+  // grow_to_at_least(target) all the time
+  const bool ladder = rnd(4) == 0;
   for (int t = 0; t < growers; ++t) {
     Work& wk = w[t];
     wk = Work();
     wk.spin = rnd(4) == 0 ? rnd(2000) : rnd(120);
-    int nops = 1 + rnd(kMaxOps);
+    int nops = ladder ? kMaxOps : 1 + rnd(kMaxOps);
+    if (ladder)
+      wk.spin = rnd(40);
     for (int k = 0; k < nops; ++k) {
       SOp o;
       o.v = (t + 1) * 100000 + wk.nops * 100;
       int r = rnd(20);
+      if (ladder) {
+        if (rnd(4) == 0) {
+          o.kind = kPush + rnd(3);
+          o.n = 1;
+        } else {
+          o.kind = rnd(2) ? kGtal : kGtalv;
+          o.n = c.n0 + 1 + k + rnd(2);
+        }
+        wk.ops[wk.nops++] = o; // (final size <= n0 + 4 * kMaxOps * (kMaxOps + 2) in the worst case)
+        continue;
+      }
       if (r < 8) {
         o.kind = kPush + rnd(3);
         o.n = 1;
       } else if (r < 16) {
         o.kind = kGrowd + rnd(5);
         int a = rnd(12);
-        o.n = a == 0 ? 0 : a < 8 ? 1 + rnd(3) : a < 11 ? 4 + rnd(5) : 9 + rnd(12);
+        o.n = a == 0 ? 0 : a < 9 ? 1 + rnd(3) : a < 11 ? 4 + rnd(5) : 9 + rnd(10);
         if (o.kind == kGrowi && o.n > 3)
           o.n = 3;
       } else {
@@ -993,6 +1033,8 @@ int run(const drv::Args& a) {
     g_sh.growerFn = vt.grower;
     g_sh.readerFn = vt.reader;
     g_sh.growersDone.store(0, std::memory_order_relaxed);
+    g_sh.arrived.store(0, std::memory_order_relaxed);
+    g_sh.startAt.store(0, std::memory_order_relaxed);
     g_sh.done.store(0, std::memory_order_relaxed);
     long long t1 = nowNs();
     g_sh.go.store(r, std::memory_order_release);
